@@ -52,6 +52,7 @@ class RunsAdapter(Adapter):
     # ------------------------------------------------------------------ plumbing
     def fresh(self, variant):
         ctx = Ctx()
+        impl_C14.set_names()
         ctx.dir = Path(tempfile.mkdtemp(prefix="c14r-", dir=self.root))
         ctx.nrun = 0
         ctx.calls = 0
